@@ -320,7 +320,7 @@ def run_tiling(case):
         elif cls in ("centre", "pixel-centre") and (jx, jy) != T:
             r.fail(f"pt2idx:interior-point-other-tile:{cls}:{k}",
                    f"{what}: interior point ({fxp},{fyp}) of footprint {fmt(F)} looked up as {(jx, jy)}")
-    # points next to the edges: +-1 ulp and +-0.9e-8 / +-1.1e-8 (both sides of the query tolerance, which point
+    # points next to the edges: +-1 ulp and +-0.3e-8 / +-0.9e-8 / +-1.1e-8 (both sides of the query tolerance, which point
     # lookup must NOT apply). These are not dyadic: containment is judged with 4 ulp of the coordinate scale.
     fcx, fcy = float(cx), float(cy)
     for ax, ename, e, other in (("x", "x0", x0, fcy), ("x", "x1", x1, fcy), ("y", "y0", y0, fcx), ("y", "y1", y1, fcx)):
@@ -332,6 +332,7 @@ def run_tiling(case):
         # denormal, whose quotient underflows - not a coordinate anyone has)
         u = max(math.ulp(fe), math.ulp(float(sz)))
         for dname, pv in (("ulp", fe + u), ("ulp", fe - u),
+                          ("0.05tol", fe + 5e-10), ("0.05tol", fe - 5e-10), ("0.3tol", fe + 0.3e-8), ("0.3tol", fe - 0.3e-8),
                           ("0.9tol", fe + 0.9e-8), ("0.9tol", fe - 0.9e-8), ("1.1tol", fe + 1.1e-8), ("1.1tol", fe - 1.1e-8)):
             P = (pv, other) if ax == "x" else (other, pv)
             jx, jy = gs.pt2idx(*P).xy
@@ -1627,7 +1628,7 @@ def main(ctx):
         "D alphabet: exact comparison; R alphabet: exact rationals of the float inputs, tolerance 16 ulp of (|value| + "
         "|origin|) + 1e-9 pixel (rebuilt grids: times 1 + index distance from the sample tile; web tiles: 2^-52 * pi*R * "
         "(4 + 2*2^z) + 1e-9 pixel) - 1e-13 deg on a 4.5e-6 deg grid at 15 deg, 4e-8 m at 6e6 m",
-        "near-edge point lookups (+-1 ulp at the scale of the grid, +-0.9e-8, +-1.1e-8) are not dyadic: containment in "
+        "near-edge point lookups (+-1 ulp at the scale of the grid, +-5e-10, +-0.3e-8, +-0.9e-8, +-1.1e-8) are not dyadic: containment in "
         "the returned tile is judged with 4 ulp of (|edge| + |origin| + tile size)",
         "point lookup: the returned tile's closed footprint must contain the point; interior points must map to their "
         "own tile; which of the touching tiles owns an edge/corner point is not demanded (recorded in the outcome label)",
